@@ -109,10 +109,12 @@ def _chain_is_finite(o, limit=64):
     return True
 
 
-def name_token(o, h):
+def name_token(o, h, idmap=None):
     n = o.name
     if n is None or n == "":
         return "empty"
+    if idmap and n in idmap:          # named by an id: "#" + first handle carrying that id
+        return "#" + idmap[n]
     if n == o.id:
         return "#" + h
     return INV_NAMES.get(n, "?" + str(n))
@@ -124,7 +126,7 @@ def project(objs, extra=None, docof=True):
     objs = dict(objs)
     hid = {id(o): h for h, o in objs.items() if o is not None}
     work = [o for o in objs.values() if o is not None]
-    nz = [0]
+    nz = [sum(1 for x in objs if x.startswith("z"))]
 
     def handle(o):
         if o is None:
@@ -152,8 +154,15 @@ def project(objs, extra=None, docof=True):
             r["plist"] = [handle(x) for x in list.__iter__(o.properties)]
         if k in ("sec", "prop"):
             r["par"] = handle(o.parent)
-            r["name"] = name_token(o, h)
         raw[h] = r
+    idmap = {}
+    for hh in sorted(objs, key=lambda x: (len(x), x)):
+        oo = objs[hh]
+        if oo is not None and kind_of(oo) in ("doc", "sec", "prop"):
+            idmap.setdefault(oo.id, hh)
+    for hh, oo in objs.items():
+        if oo is not None and kind_of(oo) in ("sec", "prop"):
+            raw[hh]["name"] = name_token(oo, hh, idmap)
     st = {"kind": {}, "kids": {}, "plist": {}, "par": {}, "name": {}}
     if docof:
         st["docof"] = {}
